@@ -349,6 +349,54 @@ static void do_exc(void) {
   all_teardown();
 }
 
+
+/* exw <n> <mid0>: message-id wrap experiment with a scripted peer.  One exchange answered
+ * piggybacked, then n exchanges answered by empty ACK + separate CON response, then one more
+ * answered piggybacked.  result: first=<mid> last=<mid> resp_last=<handler calls for the last
+ * request> nack_last=<n> queued=<0|1> total_resp=<n> */
+static void do_exw(void) {
+  long n = vntok > 1 ? atol(vtok[1]) : 65535;
+  int mid0 = vntok > 2 ? atoi(vtok[2]) : 100;
+  coap_address_t peer;
+  vn_addr4(&peer, VN_LOOPBACK, 5683);
+  vn_now = 1000;
+  vn_prng_seed(11);
+  client_setup(&peer, 4, mid0, 0);
+  use_tok_verdict = 0;
+  cur_ok = 1;
+  recording = 0;
+  long total = 0;
+  int first_mid = -1, last_mid = -1, last_resp = 0, last_nack = 0;
+  uint8_t b[64];
+  for (long e = 0; e <= n + 1; e++) {
+    int piggy = (e == 0 || e == n + 1);
+    nreqs = 0;                         /* only the current request is tracked */
+    app_send(piggy ? 0 : 1, 1);
+    if (nreqs != 1) break;
+    int mid = reqs[0].mid;
+    unsigned long long tok = reqs[0].tok;
+    if (e == 0) first_mid = mid;
+    size_t len;
+    if (piggy) {
+      len = peer_bytes(b, "ar", mid, tok);
+      vn_inject_session(cli, cs, b, len);
+    } else {
+      len = peer_bytes(b, "ae", mid, 0);
+      vn_inject_session(cli, cs, b, len);
+      len = peer_bytes(b, "cr", (int)((7000 + e) & 0xffff), tok);
+      vn_inject_session(cli, cs, b, len);
+    }
+    total += reqs[0].nresp;
+    if (e == n + 1) { last_mid = mid; last_resp = reqs[0].nresp; last_nack = reqs[0].nnack; }
+    vn_log_reset();
+    vn_advance(200000);            /* lets the lg_crcv set up at the empty ACK expire */
+    vn_prepare(cli);
+  }
+  printf("first=%d last=%d resp_last=%d nack_last=%d queued=%d total_resp=%ld\n", first_mid, last_mid,
+         last_resp, last_nack, cli->sendqueue != NULL, total);
+  all_teardown();
+}
+
 /* ------------------------------------------------------------------ exe: servers */
 static coap_tick_t adelay = 300;
 static int srv_nstart = 0, smid0 = -1, smid_set = 0;
@@ -692,6 +740,7 @@ int main(void) {
     if (vntok == 0) { puts(""); continue; }
     if (!strcmp(vtok[0], "exc")) do_exc();
     else if (!strcmp(vtok[0], "exe")) do_exe();
+    else if (!strcmp(vtok[0], "exw")) do_exw();
     else puts("ERROR unknown command");
   }
   coap_cleanup();
